@@ -12,6 +12,14 @@ use std::marker::PhantomData;
 
 pub struct FfOps<K>(PhantomData<K>);
 
+/// raw data of one operand of `ff.semifinite_arrow_compose` (wire kinds 0, 1, 2)
+#[derive(Clone, Debug)]
+pub enum RSide {
+    Identity,
+    Finite(RFF),
+    Semifinite(Vec<usize>),
+}
+
 impl<K: HK> FfOps<K>
 where
     K::Type<usize>: NaturalArray<K> + PartialEq,
@@ -22,6 +30,90 @@ where
     }
     fn eo(f: Option<FF<K>>) -> Sx {
         opt(f.map(|f| Self::e(&f)))
+    }
+
+    // ---- op bodies: the calls into the real library, shared by the generator and the replay mode
+
+    pub fn op_new(table: Vec<usize>, target: usize) -> Sx {
+        Self::eo(FiniteFunction::<K>::new(K::idx(table), target))
+    }
+    pub fn op_identity(a: usize) -> Sx {
+        ok(Self::e(&FiniteFunction::<K>::identity(a)))
+    }
+    pub fn op_initial(a: usize) -> Sx {
+        ok(Self::e(&FiniteFunction::<K>::initial(a)))
+    }
+    pub fn op_terminal(a: usize) -> Sx {
+        ok(Self::e(&FiniteFunction::<K>::terminal(a)))
+    }
+    pub fn op_constant(a: usize, x: usize, b: usize) -> Sx {
+        ok(Self::e(&FiniteFunction::<K>::constant(a, x, b)))
+    }
+    pub fn op_inject0(g: &RFF, k: usize) -> Sx {
+        ok(Self::e(&Cv::<K>::ff(g).inject0(k)))
+    }
+    pub fn op_inject1(g: &RFF, k: usize) -> Sx {
+        ok(Self::e(&Cv::<K>::ff(g).inject1(k)))
+    }
+    pub fn op_to_initial(g: &RFF) -> Sx {
+        ok(Self::e(&Cv::<K>::ff(g).to_initial()))
+    }
+    pub fn op_compose(a: &RFF, b: &RFF) -> Sx {
+        Self::eo(Cv::<K>::ff(a).compose(&Cv::<K>::ff(b)))
+    }
+    pub fn op_compose_semifinite(a: &RFF, lb: &[usize]) -> Sx {
+        opt(compose_semifinite(&Cv::<K>::ff(a), &Cv::<K>::sf(lb)).map(|r| l(&Cv::<K>::rsf(&r))))
+    }
+    pub fn op_coproduct(a: &RFF, b: &RFF) -> Sx {
+        Self::eo(Cv::<K>::ff(a).coproduct(&Cv::<K>::ff(b)))
+    }
+    pub fn op_tensor(a: &RFF, b: &RFF) -> Sx {
+        ok(Self::e(&Cv::<K>::ff(a).tensor(&Cv::<K>::ff(b))))
+    }
+    pub fn op_inj0(a: usize, b: usize) -> Sx {
+        ok(Self::e(&FiniteFunction::<K>::inj0(a, b)))
+    }
+    pub fn op_inj1(a: usize, b: usize) -> Sx {
+        ok(Self::e(&FiniteFunction::<K>::inj1(a, b)))
+    }
+    pub fn op_twist(a: usize, b: usize) -> Sx {
+        ok(Self::e(&FiniteFunction::<K>::twist(a, b)))
+    }
+    pub fn op_transpose(a: usize, b: usize) -> Sx {
+        ok(Self::e(&FiniteFunction::<K>::transpose(a, b)))
+    }
+    pub fn op_injections(ss: &RFF, aa: &RFF) -> Sx {
+        Self::eo(Cv::<K>::ff(ss).injections(&Cv::<K>::ff(aa)))
+    }
+    pub fn op_cumulative_sum(g: &RFF) -> Sx {
+        ok(Self::e(&Cv::<K>::ff(g).cumulative_sum()))
+    }
+    pub fn op_is_injective(g: &RFF) -> Sx {
+        ok(b(Cv::<K>::ff(g).is_injective()))
+    }
+    pub fn op_coequalizer(a: &RFF, bb: &RFF) -> Sx {
+        Self::eo(Cv::<K>::ff(a).coequalizer(&Cv::<K>::ff(bb)))
+    }
+    pub fn op_coequalizer_universal_arr(qq: &RFF, uu: Vec<usize>) -> Sx {
+        opt(coequalizer_universal::<K, usize>(&Cv::<K>::ff(qq), &K::arr(uu)).map(|r| l(&K::unarr(&r))))
+    }
+    pub fn op_coequalizer_universal(qq: &RFF, uu: &RFF) -> Sx {
+        Self::eo(Cv::<K>::ff(qq).coequalizer_universal(&Cv::<K>::ff(uu)))
+    }
+    pub fn op_semifinite_arrow_compose(sa: &RSide, sb: &RSide) -> Sx {
+        let mk = |s: &RSide| -> SemifiniteArrow<K, usize> {
+            match s {
+                RSide::Identity => SemifiniteArrow::Identity,
+                RSide::Finite(ff_) => SemifiniteArrow::Finite(Cv::<K>::ff(ff_)),
+                RSide::Semifinite(lab) => SemifiniteArrow::Semifinite(Cv::<K>::sf(lab)),
+            }
+        };
+        let r = mk(sa).compose(&mk(sb));
+        opt(r.map(|h| match h {
+            SemifiniteArrow::Identity => list(vec![n(0), list(vec![])]),
+            SemifiniteArrow::Finite(h) => list(vec![n(1), Self::e(&h)]),
+            SemifiniteArrow::Semifinite(h) => list(vec![n(2), l(&Cv::<K>::rsf(&h))]),
+        }))
     }
 
     pub fn run(c: &mut Ctx, count: usize) {
@@ -37,31 +129,27 @@ where
                         gen::ff(&mut c.rng, m, m)
                     };
                     let g = f.clone();
-                    c.emit("ff.new", vec![l(&f.table), n(f.target)], move || {
-                        Self::eo(FiniteFunction::<K>::new(K::idx(g.table), g.target))
-                    });
+                    c.emit("ff.new", vec![l(&f.table), n(f.target)], move || Self::op_new(g.table, g.target));
                 }
                 1 => {
                     let a = c.rng.size(m);
-                    c.emit("ff.identity", vec![n(a)], move || ok(Self::e(&FiniteFunction::<K>::identity(a))));
-                    c.emit("ff.initial", vec![n(a)], move || ok(Self::e(&FiniteFunction::<K>::initial(a))));
-                    c.emit("ff.terminal", vec![n(a)], move || ok(Self::e(&FiniteFunction::<K>::terminal(a))));
+                    c.emit("ff.identity", vec![n(a)], move || Self::op_identity(a));
+                    c.emit("ff.initial", vec![n(a)], move || Self::op_initial(a));
+                    c.emit("ff.terminal", vec![n(a)], move || Self::op_terminal(a));
                 }
                 2 => {
                     let (a, x, b) = (c.rng.size(m), c.rng.size(m), c.rng.size(m));
-                    c.emit("ff.constant", vec![n(a), n(x), n(b)], move || {
-                        ok(Self::e(&FiniteFunction::<K>::constant(a, x, b)))
-                    });
+                    c.emit("ff.constant", vec![n(a), n(x), n(b)], move || Self::op_constant(a, x, b));
                 }
                 3 => {
                     let f = gen::ff(&mut c.rng, m, m);
                     let k = c.rng.size(m);
                     let g = f.clone();
-                    c.emit("ff.inject0", vec![f.enc(), n(k)], move || ok(Self::e(&Cv::<K>::ff(&g).inject0(k))));
+                    c.emit("ff.inject0", vec![f.enc(), n(k)], move || Self::op_inject0(&g, k));
                     let g = f.clone();
-                    c.emit("ff.inject1", vec![f.enc(), n(k)], move || ok(Self::e(&Cv::<K>::ff(&g).inject1(k))));
+                    c.emit("ff.inject1", vec![f.enc(), n(k)], move || Self::op_inject1(&g, k));
                     let g = f.clone();
-                    c.emit("ff.to_initial", vec![f.enc()], move || ok(Self::e(&Cv::<K>::ff(&g).to_initial())));
+                    c.emit("ff.to_initial", vec![f.enc()], move || Self::op_to_initial(&g));
                 }
                 4 | 5 | 6 => {
                     // compose: mostly composable, sometimes mismatched by one
@@ -77,35 +165,29 @@ where
                         c.knob("ff:empty-domain");
                     }
                     let (a, b) = (f.clone(), g.clone());
-                    c.emit("ff.compose", vec![f.enc(), g.enc()], move || {
-                        Self::eo(Cv::<K>::ff(&a).compose(&Cv::<K>::ff(&b)))
-                    });
+                    c.emit("ff.compose", vec![f.enc(), g.enc()], move || Self::op_compose(&a, &b));
                     // pre-composition with a label array of the same length
                     let labels = c.rng.vec_below(gsrc, 5);
                     let (a, lb) = (f.clone(), labels.clone());
-                    c.emit("ff.compose_semifinite", vec![f.enc(), l(&labels)], move || {
-                        opt(compose_semifinite(&Cv::<K>::ff(&a), &Cv::<K>::sf(&lb)).map(|r| l(&Cv::<K>::rsf(&r))))
-                    });
+                    c.emit("ff.compose_semifinite", vec![f.enc(), l(&labels)], move || Self::op_compose_semifinite(&a, &lb));
                 }
                 7 => {
                     let f = gen::ff(&mut c.rng, m, m);
                     let g = if c.rng.chance(1, 5) { gen::ff(&mut c.rng, m, m) } else { gen::ff_to(&mut c.rng, m, f.target) };
                     let (a, b) = (f.clone(), g.clone());
-                    c.emit("ff.coproduct", vec![f.enc(), g.enc()], move || {
-                        Self::eo(Cv::<K>::ff(&a).coproduct(&Cv::<K>::ff(&b)))
-                    });
+                    c.emit("ff.coproduct", vec![f.enc(), g.enc()], move || Self::op_coproduct(&a, &b));
                     let (a, b) = (f.clone(), g.clone());
-                    c.emit("ff.tensor", vec![f.enc(), g.enc()], move || ok(Self::e(&Cv::<K>::ff(&a).tensor(&Cv::<K>::ff(&b)))));
+                    c.emit("ff.tensor", vec![f.enc(), g.enc()], move || Self::op_tensor(&a, &b));
                 }
                 8 => {
                     let (a, b) = (c.rng.size(m), c.rng.size(m));
-                    c.emit("ff.inj0", vec![n(a), n(b)], move || ok(Self::e(&FiniteFunction::<K>::inj0(a, b))));
-                    c.emit("ff.inj1", vec![n(a), n(b)], move || ok(Self::e(&FiniteFunction::<K>::inj1(a, b))));
-                    c.emit("ff.twist", vec![n(a), n(b)], move || ok(Self::e(&FiniteFunction::<K>::twist(a, b))));
+                    c.emit("ff.inj0", vec![n(a), n(b)], move || Self::op_inj0(a, b));
+                    c.emit("ff.inj1", vec![n(a), n(b)], move || Self::op_inj1(a, b));
+                    c.emit("ff.twist", vec![n(a), n(b)], move || Self::op_twist(a, b));
                 }
                 9 | 10 => {
                     let (a, b) = (c.rng.size(m), c.rng.size(m));
-                    c.emit("ff.transpose", vec![n(a), n(b)], move || ok(Self::e(&FiniteFunction::<K>::transpose(a, b))));
+                    c.emit("ff.transpose", vec![n(a), n(b)], move || Self::op_transpose(a, b));
                 }
                 11 | 12 | 13 => {
                     // block-wise injections: sizes s : X -> Nat, index map a : A -> X
@@ -123,14 +205,12 @@ where
                         c.knob("ff:injections-empty-index");
                     }
                     let (ss, aa) = (s.clone(), a.clone());
-                    c.emit("ff.injections", vec![s.enc(), a.enc()], move || {
-                        Self::eo(Cv::<K>::ff(&ss).injections(&Cv::<K>::ff(&aa)))
-                    });
+                    c.emit("ff.injections", vec![s.enc(), a.enc()], move || Self::op_injections(&ss, &aa));
                 }
                 14 => {
                     let f = gen::ff(&mut c.rng, m, m);
                     let g = f.clone();
-                    c.emit("ff.cumulative_sum", vec![f.enc()], move || ok(Self::e(&Cv::<K>::ff(&g).cumulative_sum())));
+                    c.emit("ff.cumulative_sum", vec![f.enc()], move || Self::op_cumulative_sum(&g));
                 }
                 15 | 16 => {
                     let f = if c.rng.chance(1, 2) {
@@ -144,7 +224,7 @@ where
                         gen::ff(&mut c.rng, m, m)
                     };
                     let g = f.clone();
-                    c.emit("ff.is_injective", vec![f.enc()], move || ok(b(Cv::<K>::ff(&g).is_injective())));
+                    c.emit("ff.is_injective", vec![f.enc()], move || Self::op_is_injective(&g));
                 }
                 17 | 18 | 19 | 20 => {
                     // coequalizer of a parallel pair (sometimes not parallel)
@@ -167,9 +247,7 @@ where
                         }
                     }
                     let (a, bb) = (f.clone(), g.clone());
-                    c.emit("ff.coequalizer", vec![f.enc(), g.enc()], move || {
-                        Self::eo(Cv::<K>::ff(&a).coequalizer(&Cv::<K>::ff(&bb)))
-                    });
+                    c.emit("ff.coequalizer", vec![f.enc(), g.enc()], move || Self::op_coequalizer(&a, &bb));
                 }
                 _ => {
                     // universal map through a surjection q; u constant on fibres or not
@@ -186,14 +264,10 @@ where
                         u.push(0);
                     }
                     let (qq, uu) = (q.clone(), u.clone());
-                    c.emit("ff.coequalizer_universal_arr", vec![q.enc(), l(&u)], move || {
-                        opt(coequalizer_universal::<K, usize>(&Cv::<K>::ff(&qq), &K::arr(uu)).map(|r| l(&K::unarr(&r))))
-                    });
+                    c.emit("ff.coequalizer_universal_arr", vec![q.enc(), l(&u)], move || Self::op_coequalizer_universal_arr(&qq, uu));
                     let uf = RFF::new(u.clone(), 5);
                     let (qq, uu) = (q.clone(), uf.clone());
-                    c.emit("ff.coequalizer_universal", vec![q.enc(), uf.enc()], move || {
-                        Self::eo(Cv::<K>::ff(&qq).coequalizer_universal(&Cv::<K>::ff(&uu)))
-                    });
+                    c.emit("ff.coequalizer_universal", vec![q.enc(), uf.enc()], move || Self::op_coequalizer_universal(&qq, &uu));
                     // semifinite arrow composition (all nine kind combinations)
                     let (ka, kb) = (c.rng.below(3), c.rng.below(3));
                     let f = gen::ff(&mut c.rng, m, m);
@@ -206,22 +280,13 @@ where
                         _ => l(lab_),
                     };
                     let args = vec![n(ka), enc_side(ka, &f, &lab), n(kb), enc_side(kb, &g, &lab)];
-                    let (f2, g2, lab2) = (f.clone(), g.clone(), lab.clone());
-                    c.emit("ff.semifinite_arrow_compose", args, move || {
-                        let mk = |k: usize, ff_: &RFF| -> SemifiniteArrow<K, usize> {
-                            match k {
-                                0 => SemifiniteArrow::Identity,
-                                1 => SemifiniteArrow::Finite(Cv::<K>::ff(ff_)),
-                                _ => SemifiniteArrow::Semifinite(Cv::<K>::sf(&lab2)),
-                            }
-                        };
-                        let r = mk(ka, &f2).compose(&mk(kb, &g2));
-                        opt(r.map(|h| match h {
-                            SemifiniteArrow::Identity => list(vec![n(0), list(vec![])]),
-                            SemifiniteArrow::Finite(h) => list(vec![n(1), Self::e(&h)]),
-                            SemifiniteArrow::Semifinite(h) => list(vec![n(2), l(&Cv::<K>::rsf(&h))]),
-                        }))
-                    });
+                    let side = |k: usize, ff_: &RFF, lab_: &Vec<usize>| match k {
+                        0 => RSide::Identity,
+                        1 => RSide::Finite(ff_.clone()),
+                        _ => RSide::Semifinite(lab_.clone()),
+                    };
+                    let (sa, sb) = (side(ka, &f, &lab), side(kb, &g, &lab));
+                    c.emit("ff.semifinite_arrow_compose", args, move || Self::op_semifinite_arrow_compose(&sa, &sb));
                 }
             }
         }
